@@ -218,6 +218,8 @@ func runCase(env *vlib.Env, idx int, rep *vlib.Reporter) {
 		partition{"range=" + fmt.Sprint([]uint64{1, 2, 3, 7}[r.Intn(4)]), 0, randomJumps(), false},
 		partition{"range=" + fmt.Sprint([]uint64{1, 2, 3, 7}[r.Intn(4)]), 0, []uint64{uint64(length)}, false},
 		partition{"detour-over-abandoned-fork", 10_000, randomJumps(), true},
+		partition{"random-jumps-with-rpc-faults", 10_000, randomJumps(), false},
+		partition{"range=" + fmt.Sprint([]uint64{2, 3, 7}[r.Intn(3)]) + "-with-rpc-faults", 0, randomJumps(), false},
 	)
 	for i := range parts {
 		if parts[i].maxRange == 0 {
@@ -236,20 +238,47 @@ func runCase(env *vlib.Env, idx int, rep *vlib.Reporter) {
 		// ranges the syncer will process (own bookkeeping, for classifying the known finding)
 		type rng struct{ s, e uint64 }
 		var ranges []rng
-		callBase := chain.NumCalls()
+		_ = chain.NumCalls()
 		pos := start
 		detail := map[string]any{"partition": p.name, "chain": shape, "start": start, "length": length}
+		faulty := strings.HasSuffix(p.name, "with-rpc-faults")
+		injected, lastFailed := 0, -2
+		if faulty {
+			// every RPC call of this partition fails with probability 1/5, never two in a row; a
+			// failed Sync is retried with the same head, as the keyper's main loop does
+			fr := vlib.NewRng(env.Seed, 1616, uint64(idx), uint64(len(p.name)))
+			chain.Fault = func(n int, method string) error {
+				if n != lastFailed+1 && fr.Chance(1, 5) {
+					lastFailed = n
+					injected++
+					return fmt.Errorf("injected RPC failure (%s)", method)
+				}
+				return nil
+			}
+		} else {
+			chain.Fault = nil
+		}
 		syncTo := func(b *ethfake.Block) bool {
 			chain.SetHead(b)
-			var serr error
-			if rep.Guard("panic:sync", fmt.Sprintf("%s %s head=%d", shape, p.name, b.Number()), func() { serr = syncer.Sync(ctx, b.Header) }) {
-				return false
+			for attempt := 0; ; attempt++ {
+				before := injected
+				var serr error
+				if rep.Guard("panic:sync", fmt.Sprintf("%s %s head=%d", shape, p.name, b.Number()), func() { serr = syncer.Sync(ctx, b.Header) }) {
+					return false
+				}
+				if serr == nil {
+					return true
+				}
+				if injected == before {
+					rep.Violationf("sync-error", detail, "Sync failed without an injected fault: %v", serr)
+					return false
+				}
+				rep.Obs("sync_calls_failed_by_injected_rpc_fault", 1)
+				if attempt > 200 {
+					rep.Inconclusive("Sync did not get through 200 attempts under injected RPC faults")
+					return false
+				}
 			}
-			if serr != nil {
-				rep.Violationf("sync-error", detail, "Sync failed without injected faults: %v", serr)
-				return false
-			}
-			return true
 		}
 		okRun := true
 		heads := p.heads
@@ -375,49 +404,14 @@ func runCase(env *vlib.Env, idx int, rep *vlib.Reporter) {
 		sort.Strings(missing)
 		for _, id := range missing {
 			t := want[id]
-			// known finding: every in-window matching log lies in a processed range that also
-			// contains (or precedes) the registration block, i.e. the registration was not yet
-			// stored when the trigger processor fetched that range
-			ranges = ranges[:0]
-			for _, c := range chain.Calls()[callBase:] {
-				var a, b uint64
-				if c.Method == "eth_getLogs" {
-					if n, _ := fmt.Sscanf(c.Args, "%d..%d", &a, &b); n == 2 {
-						ranges = append(ranges, rng{a, b})
-					}
-				}
-			}
-			explained := true
-			if explained {
-				for b := t.regBlock + 1; b <= t.expiry && b <= uint64(length); b++ {
-					has := false
-					for _, l := range plans[b].logs {
-						if l.k == t.k {
-							has = true
-						}
-					}
-					if !has {
-						continue
-					}
-					inSame := false
-					for _, rg := range ranges {
-						if rg.s <= b && b <= rg.e && rg.s <= t.regBlock {
-							inSame = true
-						}
-					}
-					if !inSame {
-						explained = false
-					}
-				}
-			}
 			detail["trigger"] = fmt.Sprintf("k=%d reg=%d expiry=%d", t.k, t.regBlock, t.expiry)
-			if explained {
-				rep.Violationf("registered-and-matched-in-one-sync-range", detail, "trigger registered at block %d and matched inside the same sync range never fires (partition %s)", t.regBlock, p.name)
-			} else {
-				rep.Violationf("not-fired:"+strings.SplitN(p.name, "=", 2)[0], detail, "trigger %s (registered %d, expiry %d) should have fired but did not (partition %s)", id, t.regBlock, t.expiry, p.name)
-				node.Close()
-				return
+			fam := strings.SplitN(p.name, "=", 2)[0]
+			if strings.HasSuffix(p.name, "with-rpc-faults") {
+				fam += "-with-rpc-faults"
 			}
+			rep.Violationf("not-fired:"+fam, detail, "trigger %s (registered %d, expiry %d) should have fired but did not (partition %s)", id, t.regBlock, t.expiry, p.name)
+			node.Close()
+			return
 		}
 		if u := node.CheckUnsupported(); u != "" {
 			rep.Inconclusive(u)
